@@ -275,6 +275,15 @@ GENERIC = [
     Rule(r'\bphosg::', '', regex=True),
     Rule(r'\bconstexpr\b\s*', '', regex=True),
     Rule(r'\bnoexcept\b\s*', '', regex=True),
+    Rule(r'\bthread_local\b\s*', '', regex=True),     # sequential proofs: thread-local storage is plain static storage
+]
+
+# applied after the cast rewriting: type traits / constants of the C++ headers that have a direct C spelling
+POST_GENERIC = [
+    Rule(r'\busing (\w+) = make_(unsigned|signed)_t<(\w+)>;', lambda mo: 'typedef %s_OF(%s) %s;' % (mo.group(2).upper(), mo.group(3), mo.group(1)), regex=True),
+    Rule(r'\bmake_(unsigned|signed)_t<(\w+)>', lambda mo: '%s_OF(%s)' % (mo.group(1).upper(), mo.group(2)), regex=True),
+    Rule(r'\bbits_for_type<(\w+)>', r'((uint8_t)(sizeof(\1) << 3))', regex=True),
+    Rule(r'\bis_(unsigned|signed)_v<(\w+)>', lambda mo: 'IS_%s(%s)' % (mo.group(1).upper(), mo.group(2)), regex=True),
 ]
 
 RESIDUE = [
